@@ -1009,6 +1009,8 @@ def run(ctx):
         small = [c for c in zcases if len(c["items"]) <= 2 and any(it["T"] > 0 for it in c["items"])]
         rest = [c for c in zcases if not (len(c["items"]) <= 2 and any(it["T"] > 0 for it in c["items"]))]
         zcases = small + rz.sample(rest, min(len(rest), 700))
+    elif len(zcases) > 15000:  # (the design check over them stays exhaustive)
+        zcases = random.Random(ctx.seed * 7919 + 1402).sample(zcases, 15000)
     ccases = ccases + zcases
     ctr, cmeta = [], {}
     for i, c in enumerate(ccases):
@@ -1077,9 +1079,9 @@ def run(ctx):
     # (quick: one of the two).  Utterance ids are returned: such an utterance shows in a batch through its id alone.
     rz = random.Random(ctx.seed * 7919 + 1401)
     nz = 0
-    for lens in sorted(l for l in by_lens if 0 in l):
+    for vi, lens in enumerate(sorted(l for l in by_lens if 0 in l)):
         keys = sorted(by_lens[lens])
-        for kind in (("window", ("spect", "lang")[nz % 2]) if ctx.quick else ("window", "spect", "lang")):
+        for kind in (("window", ("spect", "lang")[vi % 2]) if ctx.quick else ("window", "spect", "lang")):
             cfg = random_flags(rz, kind)
             cfg["suttids"] = False
             if kind == "window":
